@@ -53,7 +53,7 @@ def showHost (a : Addr) : String := if a.fam = 0 then "none" else showAddrEv a
 def showChar (c : Nat) : String := if c = 0 then "0" else String.singleton (Char.ofNat c)
 
 def showEvent : Event → String
-  | .ans dst id type dn name data => s!"ans {showAddrEv dst} {id} {type} {showChar dn} {toHex name} {toHex data}"
+  | .ans dst id type dn name data _ => s!"ans {showAddrEv dst} {id} {type} {showChar dn} {toHex name} {toHex data}"
   | .raw dst b => s!"raw {showAddrEv dst} {toHex b}"
   | .tunw f => s!"tunw {toHex f}"
   | .fwd dst => s!"fwd {showAddrEv dst} -"
